@@ -51,6 +51,7 @@ type session struct {
 	manifest       *journal.Writer
 	manifestWriter storage.Writer
 	manifestFd     storage.FileDesc
+	manifestFailed bool // an append to the current manifest failed; start a new one
 
 	stCompPtrs  []internalKey // compaction pointers; need external synchronization
 	stVersion   *version      // current version
@@ -226,7 +227,7 @@ func (s *session) commit(r *sessionRecord, trivial bool) (err error) {
 	if s.manifest == nil {
 		// manifest journal writer not yet created, create one
 		err = s.newManifest(r, nv)
-	} else if s.manifest.Size() >= s.o.GetMaxManifestFileSize() {
+	} else if s.manifestFailed || s.manifest.Size() >= s.o.GetMaxManifestFileSize() {
 		// Do not pass r itself, to avoid over-reference table file: the new
 		// manifest is a snapshot of nv. But the snapshot must carry the
 		// journal and sequence numbers this edit establishes, otherwise they
@@ -242,8 +243,17 @@ func (s *session) commit(r *sessionRecord, trivial bool) (err error) {
 			nr.setSeqNum(r.seqNum)
 		}
 		err = s.newManifest(nr, nv)
+		if err == nil {
+			s.manifestFailed = false
+		}
 	} else {
 		err = s.flushManifest(r)
+		if err != nil {
+			// The journal writer of the manifest keeps its error and the
+			// file may end in a torn record: do not append to it again,
+			// the next commit (e.g. the retry) starts a new manifest.
+			s.manifestFailed = true
+		}
 	}
 
 	// finally, apply new version if no error rise
